@@ -3,7 +3,8 @@
 #    Model/BarrierTree.v: controller-chosen interleavings of the ticket CAS steps, the model
 #    replays the schedule and predicts every step's (site, round, node), the completing thread and
 #    the final expected count.
-#  * sequential DIFF of the real latch against Model/Latch.v (LSEQ lines).
+#  * LOCKSTEP of the real latch (count_down / wait / try_wait on OS threads, default agent) against
+#    Model/Latch.v; sequential DIFF of latch (incl. arrive_and_wait) and call_once.
 #  * runs on the real runtime (tasks > workers) with monitors that evaluate the property itself.
 import os
 import re
@@ -14,7 +15,7 @@ ASSUMPTIONS = [
     'sequentially consistent interleaving at the granularity of one atomic access / one spinlock critical section with at most one unprotected access (memory_order annotations not modelled; compare_exchange_strong never fails spuriously)',
     'agent contract: a suspension may return spuriously at any time (oracle step); the scheduler below it (set_thread_state, retry helper) is not part of C09',
     'barrier preconditions of [thread.barrier] as a ghost flag: at most `expected` arrivals per phase, none during the completion step',
-    'event / call_once are tied to the code by runtime monitors and the translator (status constants), not by lock-step',
+    'event is tied to the code by runtime monitors only, call_once by sequential differential runs, runtime monitors and the translator (status constants); latch::arrive_and_wait is not lock-stepped (its last-arriver branch holds the spinlock across two steps)',
 ]
 
 MON = re.compile(r'^MONITOR (\S+) (.*)$')
@@ -62,6 +63,36 @@ def run_tree(ctx, r, drv, h, sd, n):
     for s in list(zip(ins, outs))[:2]:
         r.sample({'input_and_schedule': s[0][:600], 'observed': s[1][:600]})
     return len(ins)
+
+
+def run_latch(ctx, r, drv, h, sd, n):
+    rc, out = sh([h, str(sd), str(n)], timeout=600)
+    lines = out.split('\n')
+    rep = {'harness': 'c09_latch', 'args': [sd, n]}
+    if rc != 0:
+        r.hits.append(Hit('monitor' if rc < 0 or rc >= 128 else 'tie', 'C09:latch_harness:rc',
+                          'latch lock-step harness ended with rc=%d: %s' % (rc, out[-400:]), rep))
+    collect_monitors(r, lines, rep)
+    ins = [x for x in lines if x.startswith('IN LLOCK ')]
+    outs = [x for x in lines if x.startswith('OUT LLOCK ')]
+    rc2, mout = sh([drv], input='\n'.join(ins) + '\n', timeout=900)
+    mouts = [x for x in mout.split('\n') if x.startswith('OUT LLOCK ')]
+    diffs, ncases = diff_lines(ctx, outs, mouts)
+    r.evaluations += ncases
+    r.traces += ncases
+    inmap = {(x.split(' ')[1], x.split(' ')[2]): x for x in ins}
+    for i_, o_ in zip(ins, outs):
+        p = i_.split(' ')
+        r.count('latch_lockstep:threads=%s' % p[4])
+        if '9001' in o_:
+            r.count('latch_lockstep:with_suspension')
+            r.nontrivial(i_)
+    for (k, a, b) in diffs[:10]:
+        r.hits.append(Hit('corr', 'C09:latch:correspondence',
+                          'latch: implementation and model differ on case %s: impl [%s] model [%s]' % (k, a[:300], b[:300]),
+                          dict(rep, case=inmap.get(k), impl=a, model=b)))
+    for s in list(zip(ins, outs))[:1]:
+        r.sample({'input_and_schedule': s[0], 'observed': s[1]})
 
 
 def run_rt(ctx, r, drv, h, sd, scale, trials):
@@ -121,12 +152,14 @@ def run(ctx):
               'phase fresh threads whose arrive(n)/arrive_and_drop add up to the expected count; the controller picks the '
               'interleaving of the ticket CAS steps and every arrival\'s start node from VERIF_SEED; the extracted model replays '
               'it; non-trivial = expected >= 2 and >= 2 threads in the first phase; distinct = distinct (input, schedule). '
-              'DIFF (latch, sequential programs). RUNTIME: barrier 2..12 participants on 4 workers, 3..145 phases, drops; latch '
+              'LOCKSTEP (latch): count 0..4, 1..5 threads with count_down(n)/wait/try_wait whose decrements add up to the count; non-trivial = a waiter suspended. DIFF (latch and call_once, sequential programs). RUNTIME: barrier 2..12 participants on 4 workers, 3..145 phases, drops; latch '
               'with 1..8 waiters; call_once with 0..2 throwing runs; event with late waiters; stale wake-up scenario (F12): 4500 trials (latch::wait, latch::arrive_and_wait, event::wait after a notified timed wait).')
     ctx.build_pika()
     drv = ctx.build_model('C09', 'ExtractC09.v', 'drv_c09.ml')
     h_tree = ctx.build_harness('c09_tree', 'c09_tree.cpp')
     h_rt = ctx.build_harness('c09_rt', 'c09_rt.cpp')
+    h_latch = ctx.build_harness('c09_latch', 'c09_latch.cpp')
+    run_latch(ctx, r, drv, h_latch, ctx.seed, 600 if ctx.tier == 'quick' else 6000)
     if ctx.tier == 'quick':
         run_tree(ctx, r, drv, h_tree, ctx.seed, 400)
         run_rt(ctx, r, drv, h_rt, ctx.seed, 1, 4500)
